@@ -40,7 +40,7 @@ fn cmp_bytes(rec: &mut Rec, what: &str, a: &[u8], bb: &[u8], detail: serde_json:
 
 pub fn run(ctx: &Ctx, rec: &mut Rec) {
     let f = &ctx.c.f;
-    for nm in ["generators", "G1 scalar mul + serialisation", "G2 scalar mul + serialisation", "cross-engine deserialisation", "pairing", "bilinearity", "miller_loop + final_exponentiation", "multi_pairing", "frobenius maps", "tower arithmetic"] {
+    for nm in ["generators", "G1 scalar mul + serialisation", "G2 scalar mul + serialisation", "cross-engine deserialisation", "pairing", "bilinearity", "miller_loop + final_exponentiation", "multi_pairing", "frobenius maps", "tower arithmetic", "cross-engine deserialisation (readers with partial progress)", "mul_bigint by raw limbs"] {
         rec.declare_form(nm);
     }
     // generators, identities
@@ -69,7 +69,7 @@ pub fn run(ctx: &Ctx, rec: &mut Rec) {
         let mut rng = rng_for(ctx.seed, P, w, 1);
         let mut scalars: Vec<(B, &'static str)> = Vec::new();
         for (i, z) in zoo.iter().enumerate() {
-            if i % 9 == 0 || i < 12 {
+            if i % 9 == 0 || i < 12 || z.1 == "recoding-run" {
                 scalars.push(z.clone());
             }
         }
@@ -101,6 +101,33 @@ pub fn run(ctx: &Ctx, rec: &mut Rec) {
                     out.push(("cross-engine deserialisation", y1.map(|p| ser(&p, c)).unwrap_or_else(|e| e.into_bytes()), ser(&p1o, c)));
                     out.push(("cross-engine deserialisation", y2.map(|p| ser(&p, c)).unwrap_or_else(|e| e.into_bytes()), ser(&p2o, c)));
                 }
+                // readers that deliver the encoding in pieces (chained halves, 1..7 bytes per read)
+                for c in [Compress::Yes, Compress::No] {
+                    use ark_std::io::Read;
+                    let (b1, b2) = (ser(&p1r, c), ser(&p2r, c));
+                    let cut1 = 1 + (i * 7) % (b1.len() - 1);
+                    let cut2 = 1 + (i * 11) % (b2.len() - 1);
+                    let z1 = <<Ours as Pairing>::G1Affine as CanonicalDeserialize>::deserialize_with_mode((&b1[..cut1]).chain(&b1[cut1..]), c, Validate::Yes);
+                    let z2 = <<Ours as Pairing>::G2Affine as CanonicalDeserialize>::deserialize_with_mode((&b2[..cut2]).chain(&b2[cut2..]), c, Validate::Yes);
+                    let z3 = <<Ours as Pairing>::G2Affine as CanonicalDeserialize>::deserialize_with_mode(crate::fld::Trickle { data: &b2, pos: 0, step: 1 + i % 7 }, c, Validate::Yes);
+                    out.push(("cross-engine deserialisation (readers with partial progress)", z1.map(|p| ser(&p, c)).unwrap_or_else(|e| format!("{e:?}").into_bytes()), b1.clone()));
+                    out.push(("cross-engine deserialisation (readers with partial progress)", z2.map(|p| ser(&p, c)).unwrap_or_else(|e| format!("{e:?}").into_bytes()), b2.clone()));
+                    out.push(("cross-engine deserialisation (readers with partial progress)", z3.map(|p| ser(&p, c)).unwrap_or_else(|e| format!("{e:?}").into_bytes()), b2.clone()));
+                }
+                // scalar multiplication by raw little-endian limbs (not reduced, 1..6 limbs)
+                {
+                    let mut limbs = k.to_u64_digits();
+                    limbs.push(0x7777_7777_7777_7777u64.wrapping_mul(1 + (i as u64 % 3)));
+                    if i % 2 == 0 {
+                        limbs.push(i as u64);
+                    }
+                    let g1o = <Ours as Pairing>::G1::generator().mul_bigint(&limbs).into_affine();
+                    let g1r = <Refe as Pairing>::G1::generator().mul_bigint(&limbs).into_affine();
+                    let g2o = p2o.mul_bigint(&limbs).into_affine();
+                    let g2r = p2r.mul_bigint(&limbs).into_affine();
+                    out.push(("mul_bigint by raw limbs", ser(&g1o, Compress::No), ser(&g1r, Compress::No)));
+                    out.push(("mul_bigint by raw limbs", ser(&g2o, Compress::No), ser(&g2r, Compress::No)));
+                }
                 // subgroup membership / curve checks of the crate engine's points
                 let ok = p1o.is_on_curve() && p1o.is_in_correct_subgroup_assuming_on_curve() && p2o.is_on_curve() && p2o.is_in_correct_subgroup_assuming_on_curve();
                 (out, ok, p1o.mul_by_cofactor_inv().mul_by_cofactor() == p1o, p2o.mul_by_cofactor_inv().mul_by_cofactor() == p2o)
@@ -125,7 +152,7 @@ pub fn run(ctx: &Ctx, rec: &mut Rec) {
     // hostile point encodings: both engines must give the same verdict (and the same point)
     rec.declare_form("hostile encodings");
     rec.declare_form("cofactor clearing");
-    for cl in ["coordinate + p", "coordinate = p", "flag bits", "bit flip", "x+1 (off curve / other point)", "random bytes", "truncated", "on curve outside subgroup", "unvalidated mode"] {
+    for cl in ["coordinate + p", "coordinate = p", "flag bits", "bit flip", "x+1 (off curve / other point)", "random bytes", "truncated", "on curve outside subgroup", "related to a validated point", "unvalidated mode"] {
         rec.declare_class(&format!("enc:{cl}"));
     }
     par(rec, |w, n, rec| {
@@ -169,6 +196,49 @@ pub fn run(ctx: &Ctx, rec: &mut Rec) {
                 cases.push(("bit flip", is_g2, c, m));
                 cases.push(("random bytes", is_g2, c, crate::zoo::rand_bytes(&mut rng, bytes.len())));
                 cases.push(("truncated", is_g2, c, bytes[..bytes.len() - 1 - rand_range(&mut rng, 5)].to_vec()));
+            }
+            // points *related to a point the crate engine has just validated*: same x.c0 (resp. x.c1) of a G2
+            // point, same low / high half of the x of a G1 point, but on the curve outside the subgroup. The
+            // honest points are deserialised (validated) by the crate engine first, the rogue ones follow.
+            if rep % 4 == 0 {
+                use ark_ec::short_weierstrass::Affine as SW;
+                use ark_ff::PrimeField;
+                type RefG1Cfg = <<Refe as Pairing>::G1Affine as AffineRepr>::Config;
+                type RefG2Cfg = <<Refe as Pairing>::G2Affine as AffineRepr>::Config;
+                type RFp = <Refe as Pairing>::BaseField;
+                type RFp2 = <<Refe as Pairing>::G2Affine as AffineRepr>::BaseField;
+                for c in [Compress::Yes, Compress::No] {
+                    let _: Result<<Ours as Pairing>::G1Affine, _> = de(&ser(&p1, c), c);
+                    let _: Result<<Ours as Pairing>::G2Affine, _> = de(&ser(&p2, c), c);
+                }
+                if let (Some((x1, _)), Some((x2, _))) = (p1.xy(), p2.xy()) {
+                    let (x1, x2): (RFp, RFp2) = (*x1, *x2);
+                    let mut found = 0;
+                    for attempt in 0..64u64 {
+                        let fresh = RFp::rand(&mut rng);
+                        let cand = match attempt % 2 { 0 => RFp2::new(x2.c0, fresh), _ => RFp2::new(fresh, x2.c1) };
+                        if let Some(pt) = SW::<RefG2Cfg>::get_point_from_x_unchecked(cand, attempt % 4 < 2) {
+                            cases.push(("related to a validated point", true, Compress::Yes, ser(&pt, Compress::Yes)));
+                            cases.push(("related to a validated point", true, Compress::No, ser(&pt, Compress::No)));
+                            found += 1;
+                            if found >= 4 { break; }
+                        }
+                    }
+                    let xb = crate::model::from_le(&ser(&x1, Compress::No));
+                    let mut found = 0;
+                    for attempt in 0..64u64 {
+                        let fresh = crate::model::from_le(&ser(&RFp::rand(&mut rng), Compress::No));
+                        let lowmask = (b(1) << 192) - b(1);
+                        let v = if attempt % 2 == 0 { (&xb & &lowmask) + ((&fresh >> 192u32) << 192u32) } else { (&fresh & &lowmask) + ((&xb >> 192u32) << 192u32) } % pmod;
+                        let cand = RFp::from_le_bytes_mod_order(&crate::model::to_le(&v, 48));
+                        if let Some(pt) = SW::<RefG1Cfg>::get_point_from_x_unchecked(cand, attempt % 4 < 2) {
+                            cases.push(("related to a validated point", false, Compress::Yes, ser(&pt, Compress::Yes)));
+                            cases.push(("related to a validated point", false, Compress::No, ser(&pt, Compress::No)));
+                            found += 1;
+                            if found >= 4 { break; }
+                        }
+                    }
+                }
             }
             // a G1 point on the curve but (almost surely) outside the prime-order subgroup
             {
